@@ -428,11 +428,14 @@ async def run_worker_case(loop: vclock.VLoop, case: dict, *, settled: Callable[[
         if stop_mode != "limit" and all(p.done() for p in producers) and is_settled(trace):
             break
     if not wt.done():
-        trace.stop_requested_at = loop.time()
-        trace.stop_step = loop.steps
-        if not loop.send_signal(signal.SIGTERM):
-            trace.errors.append("no signal handler registered at stop time")
-            wt.cancel()
+        if trace.extra.get("stop_injected"):
+            pass  # a check already delivered the stop signal at a chosen loop step: just wait for run() to return
+        else:
+            trace.stop_requested_at = loop.time()
+            trace.stop_step = loop.steps
+            if not loop.send_signal(signal.SIGTERM):
+                trace.errors.append("no signal handler registered at stop time")
+                wt.cancel()
         try:
             await asyncio.wait_for(asyncio.shield(wt), timeout=w.get("graceful", 25.0) + 30.0)
         except asyncio.TimeoutError:
